@@ -816,7 +816,7 @@ pub fn run(tier: &str) -> i32 {
         "store_identity_cases (old content x new value incl. ==-indistinguishable pairs, literal / parameter / host call)": n_store,
         "concurrent_update_harnesses_loom": {"harnesses": concurrent.0, "schedules": concurrent.1},
         "dynamic_aliasing_model": {"states": dynamic.states, "transitions": dynamic.transitions, "depth_bound": dynamic.depth, "actions": dynamic.actions, "distinct_observations": dynamic.distinct_observations, "max_live_cells": dynamic.max_cells,
-            "rule": "hand-written BFS; a state is (cell contents, cell held by x, y, p.0, p.1, the closure h), canonicalised by renumbering reachable cells; every transition runs the whole history on the real interpreter and compares step result, contents through every path and identity relations (== on cells)"},
+            "rule": "hand-written BFS; a state is (cell contents, cell held by x, y, p.0, p.1, the closure h), canonicalised by renumbering reachable cells; every transition runs the whole history on the real interpreter twice - as the body of one function called by the host with a host-made cell, and as a REPL session (one input per action, each parsed against the interpreter holding the cells of the earlier inputs) - and compares step result, contents through every path and identity relations (== on cells)"},
         "static_admissibility_cases": static_n,
         "static_admitted": static_accepted,
         "distinct_outcomes": outcomes,
